@@ -920,6 +920,9 @@ func (r *aRun) drive() {
 	} else {
 		simrt.Sleep("a.driver.finalpause", ms([]int{0, 1, 600, 1500}[len(s.Clients)%4]))
 	}
+	if strings.HasPrefix(s.Profile, "c07") {
+		simrt.Sleep("a.driver.c07grace", 10*time.Second)
+	}
 	r.stopAgent()
 	r.srv.stop()
 }
